@@ -328,7 +328,14 @@ pub struct Profile {
     pub options: bool,        // field/container options (rename/default/skip/...)
     pub body_recv: bool,      // data: ast::Data<V,F> with generated element receivers
     pub max_depth: usize,
+    /// C20: names that collide with darling's option words, generated locals, prelude items; raw idents
+    pub hostile_names: bool,
+    /// C20: generic receivers
+    pub generic_recv: bool,
 }
+
+pub const HOSTILE_FIELDS: [&str; 24] = ["errors", "items", "item", "name", "inner", "other", "val", "len", "skip", "rename", "map", "with", "flatten", "multiple", "and_then", "word", "r#type", "r#fn", "r#match", "r#struct", "result", "value", "field", "meta"];
+pub const HOSTILE_VARIANTS: [&str; 10] = ["None", "Some", "Ok", "Err", "Default", "String", "Vec", "Result", "Option", "Box"];
 
 pub struct Gen<'a> {
     pub rng: &'a mut Rng,
@@ -364,7 +371,11 @@ impl<'a> Gen<'a> {
     }
 
     fn fields(&mut self, depth: usize, tr: Trait, n: usize, in_variant: bool) -> Vec<Field> {
-        let mut names: Vec<&str> = FIELD_POOL.to_vec();
+        let mut names: Vec<&str> = if self.profile.hostile_names { HOSTILE_FIELDS.to_vec() } else { FIELD_POOL.to_vec() };
+        if self.profile.hostile_names && tr == Trait::Meta {
+            // names that are magic only for the element-level traits are ordinary fields here
+            names.extend(["default", "ident", "attrs", "data", "vis", "ty", "generics", "bounds", "fields", "discriminant"]);
+        }
         self.rng.shuffle(&mut names);
         let mut out: Vec<Field> = vec![];
         let opts = self.profile.options;
@@ -484,7 +495,7 @@ impl<'a> Gen<'a> {
         }
         if is_enum {
             let n = self.rng.range(1, 5);
-            let mut names: Vec<&str> = VARIANT_POOL.to_vec();
+            let mut names: Vec<&str> = if self.profile.hostile_names { HOSTILE_VARIANTS.to_vec() } else { VARIANT_POOL.to_vec() };
             self.rng.shuffle(&mut names);
             let mut vars = vec![];
             let mut have_word = false;
@@ -546,6 +557,10 @@ impl<'a> Gen<'a> {
                 if self.rng.chance(1, 8) {
                     r.from_none = true;
                 }
+            }
+            if self.profile.generic_recv && depth == 0 && self.rng.chance(1, 3) {
+                r.generics = (*self.rng.pick(&["<T>", "<'a, T, const N: usize>", "<T: Clone, U>"])).to_string();
+                make_generic_friendly(&mut r);
             }
         }
         self.recvs[id] = r;
@@ -656,6 +671,10 @@ impl<'a> Gen<'a> {
             // such a receiver cannot implement Default / From<Ident> (its magic field types do not)
             r.cdefault = Def::None;
             r.from_ident = false;
+        }
+        if self.profile.generic_recv && self.rng.chance(1, 3) {
+            r.generics = (*self.rng.pick(&["<T>", "<'a, T, const N: usize>", "<T: Clone, U>"])).to_string();
+            make_generic_friendly(&mut r);
         }
         self.recvs[id] = r;
         id
@@ -795,4 +814,25 @@ impl<'a> Gen<'a> {
 /// The field container-level `map` / `and_then` act on: the first parsed, non-multiple i64 or String field.
 pub fn anchor_field(r: &Recv) -> Option<usize> {
     r.fields().iter().position(|f| !f.multiple && !f.flatten && matches!(f.ty, Ty::Sc(Sc::I64) | Ty::Sc(Sc::Str)))
+}
+
+/// helper functions are not emitted generically: a generic receiver keeps only what needs none
+fn make_generic_friendly(r: &mut Recv) {
+    if r.cdefault == Def::Func {
+        r.cdefault = Def::Trait;
+    }
+    r.post = Post::None;
+    r.from_word = false;
+    r.from_none = false;
+    r.from_ident = false;
+}
+
+/// (generic arguments, extra fields `(attribute, name, type)`) of a generic receiver
+pub fn generic_parts(r: &Recv) -> (String, Vec<(&'static str, &'static str, &'static str)>) {
+    match r.generics.as_str() {
+        "<T>" => ("<T>".into(), vec![("", "gen_t", "Option<T>")]),
+        "<'a, T, const N: usize>" => ("<'a, T, N>".into(), vec![("", "gen_t", "Option<T>"), ("#[darling(skip)] ", "gen_marker", "::core::marker::PhantomData<&'a [u8; N]>")]),
+        "<T: Clone, U>" => ("<T, U>".into(), vec![("", "gen_t", "Option<T>"), ("#[darling(multiple)] ", "gen_u", "Vec<U>")]),
+        _ => (String::new(), vec![]),
+    }
 }
